@@ -850,12 +850,17 @@ def _refine(test, env_true, env_false):
     if isinstance(t, ast.Name):
         name, positive_when = t.id, True
     elif isinstance(t, ast.Compare) and len(t.ops) == 1 and isinstance(t.left, ast.Name) and \
-            isinstance(t.comparators[0], ast.Constant) and t.comparators[0].value == 0:
+            isinstance(t.comparators[0], ast.Constant) and \
+            isinstance(t.comparators[0].value, (int, float)) and t.comparators[0].value >= 0:
         name = t.left.id
-        if isinstance(t.ops[0], (ast.Gt, ast.NotEq)):
-            positive_when = True
-        elif isinstance(t.ops[0], (ast.Eq, ast.LtE)):
-            positive_when = False
+        c = t.comparators[0].value
+        if isinstance(t.ops[0], ast.Gt) or (isinstance(t.ops[0], ast.NotEq) and c == 0) or \
+                (isinstance(t.ops[0], ast.GtE) and c > 0):
+            positive_when = True            # X > c >= 0  /  X != 0  /  X >= c > 0
+        elif (isinstance(t.ops[0], (ast.Eq, ast.LtE)) and c == 0) or \
+                (isinstance(t.ops[0], ast.LtE) and c >= 0) or \
+                (isinstance(t.ops[0], ast.Lt) and c > 0):
+            positive_when = False           # the complement of the above
     if name is None or positive_when is None:
         return
     if not pol:
@@ -865,7 +870,7 @@ def _refine(test, env_true, env_false):
         tgt[name] = 'pos'
 
 
-def div_zero(ctx, modules=('kalman',)):
+def div_zero(ctx, modules=('kalman',), floor=1):
     """C07 / C08 quantify over zero matrices and the zero step.  A division by a scalar the code
     itself derives as a norm / absolute value / sum of such (>= 0, and exactly 0 for a zero input)
     without a test that excludes 0 on that path is 0/0 or x/0 for that input - NaN or inf with a
@@ -931,7 +936,7 @@ def div_zero(ctx, modules=('kalman',)):
         defs = {}
         block(f.node.body, {})
     fs = [f for f in ctx.repo.all_functions() if f.module.name.split('.')[-1] in modules]
-    ctx.floor('DIV-ZERO', len(fs), 1, 'functions')
+    ctx.floor('DIV-ZERO', len(fs), floor, 'functions')
     for f in fs:
         ctx.touch(f)
         scan(f)
